@@ -38,7 +38,7 @@ theorem cmpReverse_law : CmpLaw cmpReverse := by
   rw [cmpSigned_law b a]
   exact eq_comm
 
-variable {cmp : Cmp}
+variable {cmp : Cmp} {tr : Triple}
 
 theorem CmpLaw.refl (hc : CmpLaw cmp) (a : Nat) : cmp a a = .eq := (hc a a).mpr rfl
 theorem CmpLaw.ne_of_lt (hc : CmpLaw cmp) {a b : Nat} (h : cmp a b = .lt) : a ≠ b := by
@@ -141,51 +141,83 @@ theorem lookup_insPure (hc : CmpLaw cmp) (e : Entry) (t : Node) (ks k' : Key) (h
 
 /-! ### allocation bookkeeping of `add` -/
 
+/-- the counter of live blocks that belongs to an allocator triple -/
+def _root_.CC.Mem.liveT (m : Mem) : Triple → Nat
+  | .conf => m.live
+  | .libc => m.liveLibc
+
+theorem allocT_fst_true (m : Mem) (tr : Triple) (h : (m.allocT tr).1 = true) :
+    (m.allocT tr).2.liveT tr = m.liveT tr + 1 ∧ (m.allocT tr).2.fault = m.fault := by
+  cases tr
+  · have := Mem.alloc_fst_true m h; exact ⟨this.1, this.2.1⟩
+  · exact ⟨rfl, rfl⟩
+
+theorem allocT_fst_false (m : Mem) (tr : Triple) (h : (m.allocT tr).1 = false) :
+    (m.allocT tr).2.liveT tr = m.liveT tr ∧ (m.allocT tr).2.fault = m.fault := by
+  cases tr
+  · have := Mem.alloc_fst_false m h; exact ⟨this.1, this.2.1⟩
+  · cases h
+
+theorem allocT_nil (m : Mem) (tr : Triple) (h : m.sched = []) :
+    (m.allocT tr).1 = true ∧ (m.allocT tr).2.sched = [] := by
+  cases tr
+  · exact Mem.alloc_nil m h
+  · exact ⟨rfl, h⟩
+
+theorem begin_liveT (m : Mem) (sched : List Bool) (tr : Triple) : (m.begin sched).liveT tr = m.liveT tr := by
+  cases tr <;> rfl
+
+theorem free_spec (m : Mem) (tr : Triple) (h : 0 < m.liveT tr) :
+    (m.freeT tr).liveT tr = m.liveT tr - 1 ∧ (m.freeT tr).fault = m.fault := by
+  cases tr
+  · simp only [Mem.freeT, Mem.liveT, Mem.free] at h ⊢
+    have : m.live ≠ 0 := by omega
+    simp [this]
+  · simp only [Mem.freeT, Mem.liveT] at h ⊢
+    have : m.liveLibc ≠ 0 := by omega
+    simp [this]
+
+
 /-- blocks the table owns below its header: one per node, one per entry -/
 def Node.owned (t : Node) : Nat := t.nodes + t.marked
 
-theorem free_spec (m : Mem) (h : 0 < m.live) :
-    m.free.live = m.live - 1 ∧ m.free.fault = m.fault ∧ m.free.libc = m.libc ∧ m.free.sched = m.sched := by
-  unfold Mem.free; have : m.live ≠ 0 := by omega
-  simp [this]
-
-theorem freeN_spec (n : Nat) (m : Mem) (h : n ≤ m.live) :
-    (freeN n m).live = m.live - n ∧ (freeN n m).fault = m.fault ∧ (freeN n m).libc = m.libc := by
+theorem freeN_spec (n : Nat) (m : Mem) (h : n ≤ m.liveT tr) :
+    (freeN tr n m).liveT tr = m.liveT tr - n ∧ (freeN tr n m).fault = m.fault := by
   induction n generalizing m with
   | zero => simp [freeN]
   | succ n ih =>
-    have f := free_spec m (by omega)
-    have := ih m.free (by omega)
+    have f := free_spec m tr (by omega)
+    have := ih (m.freeT tr) (by omega)
     simp only [freeN]
-    refine ⟨by omega, by rw [this.2.1, f.2.1], by rw [this.2.2, f.2.2.1]⟩
+    refine ⟨by omega, by rw [this.2, f.2]⟩
 
-theorem allocChain_spec (todo made : Nat) (m : Mem) (h : made ≤ m.live) :
-    ((allocChain todo made m).1 = true → (allocChain todo made m).2.live = m.live + todo) ∧
-    ((allocChain todo made m).1 = false → (allocChain todo made m).2.live = m.live - made) ∧
-    (allocChain todo made m).2.fault = m.fault ∧ (allocChain todo made m).2.libc = m.libc := by
+theorem allocChain_spec (todo made : Nat) (m : Mem) (h : made ≤ m.liveT tr) :
+    ((allocChain tr todo made m).1 = true → (allocChain tr todo made m).2.liveT tr = m.liveT tr + todo) ∧
+    ((allocChain tr todo made m).1 = false → (allocChain tr todo made m).2.liveT tr = m.liveT tr - made) ∧
+    (allocChain tr todo made m).2.fault = m.fault := by
   induction todo generalizing made m with
   | zero => simp [allocChain]
   | succ n ih =>
     simp only [allocChain]
-    cases ha : m.alloc.1
-    · have a := Mem.alloc_fst_false m ha
-      have f := freeN_spec made m.alloc.2 (by omega)
-      simp only [Bool.not_false, if_true]
-      refine ⟨by simp, fun _ => by omega, by rw [f.2.1, a.2.1], by rw [f.2.2, a.2.2]⟩
-    · have a := Mem.alloc_fst_true m ha
-      have := ih (made + 1) m.alloc.2 (by omega)
-      simp only [Bool.not_true, Bool.false_eq_true, if_false]
+    rcases Bool.eq_false_or_eq_true (m.allocT tr).1 with ha | ha
+    · have a := allocT_fst_true m tr ha
+      have := ih (made + 1) (m.allocT tr).2 (by omega)
+      simp only [ha, Bool.not_true, Bool.false_eq_true, if_false]
       refine ⟨fun h1 => by have := this.1 h1; omega, fun h1 => by have := this.2.1 h1; omega,
-        by rw [this.2.2.1, a.2.1], by rw [this.2.2.2, a.2.2]⟩
+        by rw [this.2.2, a.2]⟩
+    · have a := allocT_fst_false m tr ha
+      have f := freeN_spec (tr := tr) made (m.allocT tr).2 (by omega)
+      simp only [ha, Bool.not_false, if_true]
+      refine ⟨by simp, fun _ => by omega, by rw [f.2, a.2]⟩
 
 theorem allocChain_nil (todo made : Nat) (m : Mem) (h : m.sched = []) :
-    (allocChain todo made m).1 = true ∧ (allocChain todo made m).2.sched = [] := by
+    (allocChain tr todo made m).1 = true ∧ (allocChain tr todo made m).2.sched = [] := by
   induction todo generalizing made m with
   | zero => simp [allocChain, h]
   | succ n ih =>
-    have a := Mem.alloc_nil m h
+    have a := allocT_nil m tr h
     simp only [allocChain, a.1, Bool.not_true, Bool.false_eq_true, if_false]
-    exact ih (made + 1) m.alloc.2 a.2
+    exact ih (made + 1) (m.allocT tr).2 a.2
 
 theorem nodes_mkChain (e : Entry) (ks : Key) : (mkChain e ks).nodes = chainLen ks := by
   induction ks with
@@ -204,31 +236,31 @@ theorem marked_mkChain (e : Entry) (ks : Key) : (mkChain e ks).marked = 1 := by
     | cons y ys => simp only [mkChain, Node.marked, ih]; simp
 
 /-- what one call of `setData` / `ins` guarantees, as a predicate on its result -/
-def InsSpec (old new : Node) (mem : Mem) (q : InsRes) : Prop :=
-  (q.st = .ok → q.node = new ∧ q.mem.live + old.owned = mem.live + q.node.owned ∧
+def InsSpec (tr : Triple) (old new : Node) (mem : Mem) (q : InsRes) : Prop :=
+  (q.st = .ok → q.node = new ∧ q.mem.liveT tr + old.owned = mem.liveT tr + q.node.owned ∧
       q.node.marked = old.marked + (if q.inc then 1 else 0)) ∧
-  (q.st ≠ .ok → q.st = .errAlloc ∧ q.node = old ∧ q.inc = false ∧ q.mem.live = mem.live) ∧
-  q.mem.fault = mem.fault ∧ q.mem.libc = mem.libc
+  (q.st ≠ .ok → q.st = .errAlloc ∧ q.node = old ∧ q.inc = false ∧ q.mem.liveT tr = mem.liveT tr) ∧
+  q.mem.fault = mem.fault
 
 theorem setData_spec (key : Key) (v c : Nat) (d : Option Entry) (l m r : Node) (mem : Mem) :
-    InsSpec (.node c d l m r) (.node c (some (key, v)) l m r) mem (setData key v c d l m r mem) := by
+    InsSpec tr (.node c d l m r) (.node c (some (key, v)) l m r) mem (setData tr key v c d l m r mem) := by
   unfold InsSpec
   cases d with
   | some e0 => simp [setData, Node.owned, Node.nodes, Node.marked]
   | none =>
     simp only [setData]
-    rcases Bool.eq_false_or_eq_true mem.alloc.1 with ha | ha
-    · have a := Mem.alloc_fst_true mem ha
+    rcases Bool.eq_false_or_eq_true (mem.allocT tr).1 with ha | ha
+    · have a := allocT_fst_true mem tr ha
       simp [ha, a, Node.owned, Node.nodes, Node.marked]; omega
-    · have a := Mem.alloc_fst_false mem ha
+    · have a := allocT_fst_false mem tr ha
       simp [ha, a]
 
-theorem InsSpec.lift {old new : Node} {mem : Mem} {q : InsRes} (h : InsSpec old new mem q)
+theorem InsSpec.lift {old new : Node} {mem : Mem} {q : InsRes} (h : InsSpec tr old new mem q)
     (f : Node → Node) (hn : ∀ t, (f t).nodes = t.nodes + (f .nil).nodes)
     (hm : ∀ t, (f t).marked = t.marked + (f .nil).marked) :
-    InsSpec (f old) (f new) mem ⟨q.st, f q.node, q.inc, q.mem⟩ := by
+    InsSpec tr (f old) (f new) mem ⟨q.st, f q.node, q.inc, q.mem⟩ := by
   unfold InsSpec at *
-  refine ⟨fun h1 => ?_, fun h1 => ?_, h.2.2.1, h.2.2.2⟩
+  refine ⟨fun h1 => ?_, fun h1 => ?_, h.2.2⟩
   · have := h.1 h1
     refine ⟨by rw [this.1], ?_, ?_⟩
     · simp only [Node.owned] at this ⊢
@@ -240,27 +272,27 @@ theorem InsSpec.lift {old new : Node} {mem : Mem} {q : InsRes} (h : InsSpec old 
 /-- **`add` below the header**: either everything succeeded and the tree is the pure insertion, or the
 status is `CC_ERR_ALLOC`, the tree is unchanged and every block allocated on the way was released -/
 theorem ins_spec (key : Key) (v : Nat) (t : Node) (ks : Key) (mem : Mem) :
-    InsSpec t (t.insPure cmp (key, v) ks) mem (t.ins cmp key v ks mem) := by
+    InsSpec tr t (t.insPure cmp (key, v) ks) mem (t.ins tr cmp key v ks mem) := by
   induction t generalizing ks with
   | nil =>
     unfold InsSpec
     simp only [Node.ins, Node.insPure]
-    have a := allocChain_spec (chainLen ks) 0 mem (by omega)
-    rcases Bool.eq_false_or_eq_true (allocChain (chainLen ks) 0 mem).1 with ha | ha
+    have a := allocChain_spec (tr := tr) (chainLen ks) 0 mem (by omega)
+    rcases Bool.eq_false_or_eq_true (allocChain tr (chainLen ks) 0 mem).1 with ha | ha
     · have h1 := a.1 ha
-      rcases Bool.eq_false_or_eq_true (allocChain (chainLen ks) 0 mem).2.alloc.1 with hb | hb
-      · have b := Mem.alloc_fst_true _ hb
+      rcases Bool.eq_false_or_eq_true ((allocChain tr (chainLen ks) 0 mem).2.allocT tr).1 with hb | hb
+      · have b := allocT_fst_true _ tr hb
         simp only [ha, hb, Bool.not_true, Bool.false_eq_true, if_false]
-        refine ⟨fun _ => ⟨trivial, ?_, ?_⟩, by simp, by rw [b.2.1, a.2.2.1], by rw [b.2.2, a.2.2.2]⟩
+        refine ⟨fun _ => ⟨trivial, ?_, ?_⟩, by simp, by rw [b.2, a.2.2]⟩
         · simp only [Node.owned, nodes_mkChain, marked_mkChain, Node.nodes, Node.marked]; omega
         · simp [marked_mkChain, Node.marked]
-      · have b := Mem.alloc_fst_false _ hb
-        have f := freeN_spec (chainLen ks) (allocChain (chainLen ks) 0 mem).2.alloc.2 (by omega)
+      · have b := allocT_fst_false _ tr hb
+        have f := freeN_spec (tr := tr) (chainLen ks) ((allocChain tr (chainLen ks) 0 mem).2.allocT tr).2 (by omega)
         simp only [ha, hb, Bool.not_true, Bool.not_false, Bool.false_eq_true, if_false, if_true]
-        refine ⟨by simp, fun _ => ⟨trivial, trivial, trivial, by omega⟩, by rw [f.2.1, b.2.1, a.2.2.1], by rw [f.2.2, b.2.2, a.2.2.2]⟩
+        refine ⟨by simp, fun _ => ⟨trivial, trivial, trivial, by omega⟩, by rw [f.2, b.2, a.2.2]⟩
     · have := a.2.1 ha
       simp only [ha, Bool.not_false, if_true]
-      refine ⟨by simp, fun _ => ⟨trivial, trivial, trivial, by omega⟩, a.2.2.1, a.2.2.2⟩
+      refine ⟨by simp, fun _ => ⟨trivial, trivial, trivial, by omega⟩, a.2.2⟩
   | node c d l m r ihl ihm ihr =>
     cases ks with
     | nil => simp only [Node.ins, Node.insPure]; exact setData_spec key v c d l m r mem
@@ -544,12 +576,12 @@ theorem lookup_eq_findPath (t : Node) (k : Key) :
         | cons y ys => simp only []; rw [ihm]; cases m.findPath cmp (y :: ys) <;> simp [Node.sub]
       · rw [ihr]; cases r.findPath cmp (x :: xs) <;> simp [Node.sub]
 
-theorem rebuild_cases (c : Nat) (d : Option Entry) (l m r : Node) (q : RemRes) :
-    ((rebuild c d l m r q).node = .nil ∧ (rebuild c d l m r q).pruned = true ∧
-        (rebuild c d l m r q).mem = q.mem.free ∧
+theorem rebuild_cases (tr : Triple) (c : Nat) (d : Option Entry) (l m r : Node) (q : RemRes) :
+    ((rebuild tr c d l m r q).node = .nil ∧ (rebuild tr c d l m r q).pruned = true ∧
+        (rebuild tr c d l m r q).mem = q.mem.freeT tr ∧
         q.pruned = true ∧ l = .nil ∧ m = .nil ∧ r = .nil ∧ d = none) ∨
-    ((rebuild c d l m r q).node = .node c d l m r ∧ (rebuild c d l m r q).pruned = false ∧
-        (rebuild c d l m r q).mem = q.mem ∧
+    ((rebuild tr c d l m r q).node = .node c d l m r ∧ (rebuild tr c d l m r q).pruned = false ∧
+        (rebuild tr c d l m r q).mem = q.mem ∧
         ¬ (q.pruned = true ∧ l = .nil ∧ m = .nil ∧ r = .nil ∧ d = none)) := by
   unfold rebuild
   split
@@ -561,12 +593,12 @@ theorem rebuild_cases (c : Nat) (d : Option Entry) (l m r : Node) (q : RemRes) :
     refine Or.inr ⟨rfl, rfl, rfl, ?_⟩
     intro g; exact h ⟨⟨⟨⟨g.1, g.2.1⟩, g.2.2.1⟩, g.2.2.2.1⟩, g.2.2.2.2⟩
 
-@[simp] theorem rebuild_hit (c : Nat) (d : Option Entry) (l m r : Node) (q : RemRes) :
-    (rebuild c d l m r q).hit = q.hit := by unfold rebuild; split <;> rfl
+@[simp] theorem rebuild_hit (tr : Triple) (c : Nat) (d : Option Entry) (l m r : Node) (q : RemRes) :
+    (rebuild tr c d l m r q).hit = q.hit := by unfold rebuild; split <;> rfl
 
 /-- a slot is emptied only by pruning -/
-theorem remAt_nil_pruned (t : Node) (p : Path) (mem : Mem) (h : (t.remAt p mem).node = .nil) :
-    (t.remAt p mem).pruned = true ∨ t = .nil := by
+theorem remAt_nil_pruned (t : Node) (p : Path) (mem : Mem) (h : (t.remAt tr p mem).node = .nil) :
+    (t.remAt tr p mem).pruned = true ∨ t = .nil := by
   cases t with
   | nil => exact Or.inr rfl
   | node c d l m r =>
@@ -579,13 +611,13 @@ theorem remAt_nil_pruned (t : Node) (p : Path) (mem : Mem) (h : (t.remAt p mem).
       | some e => simp only at h ⊢; split at h <;> simp_all
     | cons dir p =>
       cases dir <;> simp only [Node.remAt] at h ⊢
-      · rcases rebuild_cases c d (l.remAt p mem).node m r (l.remAt p mem) with g | g
+      · rcases rebuild_cases tr c d (l.remAt tr p mem).node m r (l.remAt tr p mem) with g | g
         · exact g.2.1
         · rw [g.1] at h; cases h
-      · rcases rebuild_cases c d l (m.remAt p mem).node r (m.remAt p mem) with g | g
+      · rcases rebuild_cases tr c d l (m.remAt tr p mem).node r (m.remAt tr p mem) with g | g
         · exact g.2.1
         · rw [g.1] at h; cases h
-      · rcases rebuild_cases c d l m (r.remAt p mem).node (r.remAt p mem) with g | g
+      · rcases rebuild_cases tr c d l m (r.remAt tr p mem).node (r.remAt tr p mem) with g | g
         · exact g.2.1
         · rw [g.1] at h; cases h
 
@@ -595,7 +627,7 @@ theorem lookup_nil (k : Key) : Node.nil.lookup cmp k = none := by simp [Node.loo
 detaches another key's path -/
 theorem lookup_remAt (hc : CmpLaw cmp) (t : Node) (k k' : Key) (p : Path) (mem : Mem) (e : Entry)
     (hk : k ≠ []) (hk' : k' ≠ []) (hp : t.findPath cmp k = some p) (hd : (t.sub p).data? = some e) :
-    (t.remAt p mem).node.lookup cmp k' = if k' = k then none else t.lookup cmp k' := by
+    (t.remAt tr p mem).node.lookup cmp k' = if k' = k then none else t.lookup cmp k' := by
   induction t generalizing k k' p with
   | nil => simp [Node.findPath] at hp
   | node c d l m r ihl ihm ihr =>
@@ -615,7 +647,7 @@ theorem lookup_remAt (hc : CmpLaw cmp) (t : Node) (k k' : Key) (p : Path) (mem :
         simp only [Node.sub] at hd
         have ih := fun k'' hk'' => ihl (x :: xs) k'' p' (by simp) hk'' hf hd
         simp only [Node.remAt]
-        rcases rebuild_cases c d (l.remAt p' mem).node m r (l.remAt p' mem) with g | g
+        rcases rebuild_cases tr c d (l.remAt tr p' mem).node m r (l.remAt tr p' mem) with g | g
         · obtain ⟨g1, _, _, _, g2, g3, g4, g5⟩ := g
           rw [g1, lookup_nil]
           subst g3 g4 g5
@@ -663,7 +695,7 @@ theorem lookup_remAt (hc : CmpLaw cmp) (t : Node) (k k' : Key) (p : Path) (mem :
           simp only [Node.sub] at hd
           have ih := fun k'' hk'' => ihm (y :: ys) k'' p' (by simp) hk'' hf hd
           simp only [Node.remAt]
-          rcases rebuild_cases x d l (m.remAt p' mem).node r (m.remAt p' mem) with g | g
+          rcases rebuild_cases tr x d l (m.remAt tr p' mem).node r (m.remAt tr p' mem) with g | g
           · obtain ⟨g1, _, _, _, g2, g3, g4, g5⟩ := g
             rw [g1, lookup_nil]
             subst g2 g4 g5
@@ -693,7 +725,7 @@ theorem lookup_remAt (hc : CmpLaw cmp) (t : Node) (k k' : Key) (p : Path) (mem :
         simp only [Node.sub] at hd
         have ih := fun k'' hk'' => ihr (x :: xs) k'' p' (by simp) hk'' hf hd
         simp only [Node.remAt]
-        rcases rebuild_cases c d l m (r.remAt p' mem).node (r.remAt p' mem) with g | g
+        rcases rebuild_cases tr c d l m (r.remAt tr p' mem).node (r.remAt tr p' mem) with g | g
         · obtain ⟨g1, _, _, _, g2, g3, g4, g5⟩ := g
           rw [g1, lookup_nil]
           subst g2 g3 g5
@@ -719,37 +751,35 @@ theorem owned_node (c : Nat) (d : Option Entry) (l m r : Node) :
 
 /-- what `remove_eow_node` guarantees for a marked node: one entry less, every released block was
 owned by the tree, no fault -/
-def RemSpec (t : Node) (mem : Mem) (q : RemRes) : Prop :=
-  q.hit = true ∧ q.node.marked + 1 = t.marked ∧ q.mem.live + t.owned = mem.live + q.node.owned ∧
-  q.mem.fault = mem.fault ∧ q.mem.libc = mem.libc ∧ q.node.owned < t.owned
+def RemSpec (tr : Triple) (t : Node) (mem : Mem) (q : RemRes) : Prop :=
+  q.hit = true ∧ q.node.marked + 1 = t.marked ∧ q.mem.liveT tr + t.owned = mem.liveT tr + q.node.owned ∧
+  q.mem.fault = mem.fault ∧ q.node.owned < t.owned
 
 theorem RemSpec.rebuild {c : Nat} {d : Option Entry} {l m r t' : Node} {mem : Mem} {q : RemRes}
-    (old : Node) (hq : RemSpec t' mem q) (hl : old.owned ≤ mem.live)
+    (old : Node) (hq : RemSpec tr t' mem q) (hl : old.owned ≤ mem.liveT tr)
     (hm : old.marked + q.node.marked = (Node.node c d l m r).marked + t'.marked)
     (hn : old.owned + q.node.owned = (Node.node c d l m r).owned + t'.owned) :
-    RemSpec old mem (CC.TST.rebuild c d l m r q) := by
-  obtain ⟨h1, h2, h3, h4, h5, h6⟩ := hq
-  rcases rebuild_cases c d l m r q with g | g
+    RemSpec tr old mem (CC.TST.rebuild tr c d l m r q) := by
+  obtain ⟨h1, h2, h3, h4, h6⟩ := hq
+  rcases rebuild_cases tr c d l m r q with g | g
   · obtain ⟨g1, g2, g3, g4, g5, g6, g7, g8⟩ := g
     subst g5 g6 g7 g8
     simp only [owned_node, owned_nil, Node.marked] at hm hn
-    have f := free_spec q.mem (by simp at *; omega)
-    refine ⟨by simp [h1], ?_, ?_, ?_, ?_, ?_⟩
+    have f := free_spec q.mem tr (by simp at *; omega)
+    refine ⟨by simp [h1], ?_, ?_, ?_, ?_⟩
     · rw [g1]; simp [Node.marked] at *; omega
     · rw [g1, g3, f.1]; simp at *; omega
-    · rw [g3, f.2.1, h4]
-    · rw [g3, f.2.2.1, h5]
+    · rw [g3, f.2, h4]
     · rw [g1]; simp at *; omega
   · obtain ⟨g1, g2, g3, g4⟩ := g
-    refine ⟨by simp [h1], ?_, ?_, ?_, ?_, ?_⟩
+    refine ⟨by simp [h1], ?_, ?_, ?_, ?_⟩
     · rw [g1]; omega
     · rw [g1, g3]; omega
     · rw [g3, h4]
-    · rw [g3, h5]
     · rw [g1]; omega
 
-theorem remAt_spec (t : Node) (p : Path) (mem : Mem) (e : Entry)
-    (hd : (t.sub p).data? = some e) (hl : t.owned ≤ mem.live) : RemSpec t mem (t.remAt p mem) := by
+theorem remAt_spec (tr : Triple) (t : Node) (p : Path) (mem : Mem) (e : Entry)
+    (hd : (t.sub p).data? = some e) (hl : t.owned ≤ mem.liveT tr) : RemSpec tr t mem (t.remAt tr p mem) := by
   induction t generalizing p with
   | nil => cases p <;> simp [Node.sub, Node.data?] at hd
   | node c d l m r ihl ihm ihr =>
@@ -759,32 +789,32 @@ theorem remAt_spec (t : Node) (p : Path) (mem : Mem) (e : Entry)
       simp only [Node.sub, Node.data?] at hd; subst hd
       simp only [Node.remAt]
       simp only [Option.isSome_some, if_true] at hown
-      have f1 := free_spec mem (by omega)
+      have f1 := free_spec mem tr (by omega)
       split
       · rename_i hnil
         simp only [Bool.and_eq_true, Node.isNil_iff] at hnil
         obtain ⟨⟨h1, h2⟩, h3⟩ := hnil; subst h1 h2 h3
-        have f2 := free_spec mem.free (by simp at hown; omega)
+        have f2 := free_spec (mem.freeT tr) tr (by simp at hown; omega)
         simp only [RemSpec, Node.marked, owned_nil]
         simp at hown
-        refine ⟨trivial, by simp, by rw [f2.1, f1.1]; omega, by rw [f2.2.1, f1.2.1], by rw [f2.2.2.1, f1.2.2.1], by omega⟩
+        refine ⟨trivial, by simp, by rw [f2.1, f1.1]; omega, by rw [f2.2, f1.2], by omega⟩
       · simp only [RemSpec, Node.marked]
         have := owned_node c none l m r
         simp at this
-        refine ⟨trivial, by simp; omega, by rw [f1.1]; omega, f1.2.1, f1.2.2.1, by omega⟩
+        refine ⟨trivial, by simp; omega, by rw [f1.1]; omega, f1.2, by omega⟩
     | cons dir p =>
       cases dir <;> simp only [Node.sub] at hd <;> simp only [Node.remAt]
       · have ih := ihl p hd (by omega)
         exact ih.rebuild _ hl (by simp only [Node.marked]; have := ih.2.1; omega)
-          (by rw [hown, owned_node]; have := ih.2.2.2.2.2; omega)
+          (by rw [hown, owned_node]; have := ih.2.2.2.2; omega)
       · have ih := ihm p hd (by omega)
         exact ih.rebuild _ hl (by simp only [Node.marked]; have := ih.2.1; omega)
-          (by rw [hown, owned_node]; have := ih.2.2.2.2.2; omega)
+          (by rw [hown, owned_node]; have := ih.2.2.2.2; omega)
       · have ih := ihr p hd (by omega)
         exact ih.rebuild _ hl (by simp only [Node.marked]; have := ih.2.1; omega)
-          (by rw [hown, owned_node]; have := ih.2.2.2.2.2; omega)
+          (by rw [hown, owned_node]; have := ih.2.2.2.2; omega)
 
-theorem heads_remAt (t : Node) (p : Path) (mem : Mem) : ∀ a ∈ (t.remAt p mem).node.heads, a ∈ t.heads := by
+theorem heads_remAt (t : Node) (p : Path) (mem : Mem) : ∀ a ∈ (t.remAt tr p mem).node.heads, a ∈ t.heads := by
   induction t generalizing p with
   | nil => simp [Node.remAt, Node.heads]
   | node c d l m r ihl ihm ihr =>
@@ -796,7 +826,7 @@ theorem heads_remAt (t : Node) (p : Path) (mem : Mem) : ∀ a ∈ (t.remAt p mem
       | some e => simp only []; split <;> simp [Node.heads]
     | cons dir p =>
       cases dir <;> simp only [Node.remAt]
-      · rcases rebuild_cases c d (l.remAt p mem).node m r (l.remAt p mem) with g | g <;> rw [g.1]
+      · rcases rebuild_cases tr c d (l.remAt tr p mem).node m r (l.remAt tr p mem) with g | g <;> rw [g.1]
         · simp [Node.heads]
         · intro a ha
           simp only [Node.heads, List.mem_cons, List.mem_append] at ha ⊢
@@ -804,10 +834,10 @@ theorem heads_remAt (t : Node) (p : Path) (mem : Mem) : ∀ a ∈ (t.remAt p mem
           · exact Or.inl ha
           · exact Or.inr (Or.inl (ihl p a ha))
           · exact Or.inr (Or.inr ha)
-      · rcases rebuild_cases c d l (m.remAt p mem).node r (m.remAt p mem) with g | g <;> rw [g.1]
+      · rcases rebuild_cases tr c d l (m.remAt tr p mem).node r (m.remAt tr p mem) with g | g <;> rw [g.1]
         · simp [Node.heads]
         · simp [Node.heads]
-      · rcases rebuild_cases c d l m (r.remAt p mem).node (r.remAt p mem) with g | g <;> rw [g.1]
+      · rcases rebuild_cases tr c d l m (r.remAt tr p mem).node (r.remAt tr p mem) with g | g <;> rw [g.1]
         · simp [Node.heads]
         · intro a ha
           simp only [Node.heads, List.mem_cons, List.mem_append] at ha ⊢
@@ -817,7 +847,7 @@ theorem heads_remAt (t : Node) (p : Path) (mem : Mem) : ∀ a ∈ (t.remAt p mem
           · exact Or.inr (Or.inr (ihr p a ha))
 
 theorem ordered_remAt (t : Node) (p : Path) (mem : Mem) (ho : t.Ordered cmp) :
-    (t.remAt p mem).node.Ordered cmp := by
+    (t.remAt tr p mem).node.Ordered cmp := by
   induction t generalizing p with
   | nil => simp [Node.remAt, Node.Ordered]
   | node c d l m r ihl ihm ihr =>
@@ -833,18 +863,18 @@ theorem ordered_remAt (t : Node) (p : Path) (mem : Mem) (ho : t.Ordered cmp) :
         · exact ⟨hl, hr, ol, om, or⟩
     | cons dir p =>
       cases dir <;> simp only [Node.remAt]
-      · rcases rebuild_cases c d (l.remAt p mem).node m r (l.remAt p mem) with g | g <;> rw [g.1]
+      · rcases rebuild_cases tr c d (l.remAt tr p mem).node m r (l.remAt tr p mem) with g | g <;> rw [g.1]
         · trivial
         · exact ⟨fun a ha => hl a (heads_remAt l p mem a ha), hr, ihl p ol, om, or⟩
-      · rcases rebuild_cases c d l (m.remAt p mem).node r (m.remAt p mem) with g | g <;> rw [g.1]
+      · rcases rebuild_cases tr c d l (m.remAt tr p mem).node r (m.remAt tr p mem) with g | g <;> rw [g.1]
         · trivial
         · exact ⟨hl, hr, ol, ihm p om, or⟩
-      · rcases rebuild_cases c d l m (r.remAt p mem).node (r.remAt p mem) with g | g <;> rw [g.1]
+      · rcases rebuild_cases tr c d l m (r.remAt tr p mem).node (r.remAt tr p mem) with g | g <;> rw [g.1]
         · trivial
         · exact ⟨hl, fun a ha => hr a (heads_remAt r p mem a ha), ol, om, ihr p or⟩
 
 /-- the pruning loop leaves no unmarked leaf behind -/
-theorem pruned_remAt (t : Node) (p : Path) (mem : Mem) (hp : t.Pruned) : (t.remAt p mem).node.Pruned := by
+theorem pruned_remAt (t : Node) (p : Path) (mem : Mem) (hp : t.Pruned) : (t.remAt tr p mem).node.Pruned := by
   induction t generalizing p with
   | nil => simp [Node.remAt, Node.Pruned]
   | node c d l m r ihl ihm ihr =>
@@ -863,7 +893,7 @@ theorem pruned_remAt (t : Node) (p : Path) (mem : Mem) (hp : t.Pruned) : (t.remA
           exact absurd ⟨⟨g.1, g.2.1⟩, g.2.2⟩ h
     | cons dir p =>
       cases dir <;> simp only [Node.remAt]
-      · rcases rebuild_cases c d (l.remAt p mem).node m r (l.remAt p mem) with g | g <;> rw [g.1]
+      · rcases rebuild_cases tr c d (l.remAt tr p mem).node m r (l.remAt tr p mem) with g | g <;> rw [g.1]
         · trivial
         · refine ⟨fun h => ?_, ihl p pl, pm, pr⟩
           simp only [Node.isNil_iff] at h h0
@@ -872,7 +902,7 @@ theorem pruned_remAt (t : Node) (p : Path) (mem : Mem) (hp : t.Pruned) : (t.remA
             | none => exact absurd ⟨h1, h.1, h.2.1, h.2.2, hd⟩ g.2.2.2
             | some e => rfl
           · exact h0 ⟨h1, h.2.1, h.2.2⟩
-      · rcases rebuild_cases c d l (m.remAt p mem).node r (m.remAt p mem) with g | g <;> rw [g.1]
+      · rcases rebuild_cases tr c d l (m.remAt tr p mem).node r (m.remAt tr p mem) with g | g <;> rw [g.1]
         · trivial
         · refine ⟨fun h => ?_, pl, ihm p pm, pr⟩
           simp only [Node.isNil_iff] at h h0
@@ -881,7 +911,7 @@ theorem pruned_remAt (t : Node) (p : Path) (mem : Mem) (hp : t.Pruned) : (t.remA
             | none => exact absurd ⟨h1, h.1, h.2.1, h.2.2, hd⟩ g.2.2.2
             | some e => rfl
           · exact h0 ⟨h.1, h1, h.2.2⟩
-      · rcases rebuild_cases c d l m (r.remAt p mem).node (r.remAt p mem) with g | g <;> rw [g.1]
+      · rcases rebuild_cases tr c d l m (r.remAt tr p mem).node (r.remAt tr p mem) with g | g <;> rw [g.1]
         · trivial
         · refine ⟨fun h => ?_, pl, pm, ihr p pr⟩
           simp only [Node.isNil_iff] at h h0
@@ -893,7 +923,7 @@ theorem pruned_remAt (t : Node) (p : Path) (mem : Mem) (hp : t.Pruned) : (t.remA
 
 theorem keysOk_remAt (hc : CmpLaw cmp) (t : Node) (k : Key) (p : Path) (mem : Mem) (e : Entry)
     (hk : k ≠ []) (hp : t.findPath cmp k = some p) (hd : (t.sub p).data? = some e)
-    (ho : t.Ordered cmp) (hko : t.KeysOk) : (t.remAt p mem).node.KeysOk := by
+    (ho : t.Ordered cmp) (hko : t.KeysOk) : (t.remAt tr p mem).node.KeysOk := by
   intro x hx
   have h := lookup_of_mem_entries hc _ (ordered_remAt t p mem ho) x hx
   rw [lookup_remAt hc t k x.1 p mem e hk (entries_key_ne_nil _ x hx) hp hd] at h
@@ -903,36 +933,34 @@ theorem keysOk_remAt (hc : CmpLaw cmp) (t : Node) (k : Key) (p : Path) (mem : Me
 
 /-! ### remove_all -/
 
-theorem freeAll_spec (t : Node) (s : Nat) (mem : Mem) (hs : t.marked ≤ s) (hl : t.owned ≤ mem.live) :
-    (t.freeAll s mem).1 = s - t.marked ∧ (t.freeAll s mem).2.live = mem.live - t.owned ∧
-    (t.freeAll s mem).2.fault = mem.fault ∧ (t.freeAll s mem).2.libc = mem.libc := by
+theorem freeAll_spec (tr : Triple) (t : Node) (s : Nat) (mem : Mem) (hs : t.marked ≤ s) (hl : t.owned ≤ mem.liveT tr) :
+    (t.freeAll tr s mem).1 = s - t.marked ∧ (t.freeAll tr s mem).2.liveT tr = mem.liveT tr - t.owned ∧
+    (t.freeAll tr s mem).2.fault = mem.fault := by
   induction t generalizing s mem with
   | nil => simp [Node.freeAll, Node.marked]
   | node c d l m r ihl ihm ihr =>
     have hown := owned_node c d l m r
     simp only [Node.marked] at hs
     have a := ihl s mem (by omega) (by omega)
-    have b := ihm (l.freeAll s mem).1 (l.freeAll s mem).2 (by omega) (by omega)
-    have c' := ihr (m.freeAll (l.freeAll s mem).1 (l.freeAll s mem).2).1 (m.freeAll (l.freeAll s mem).1 (l.freeAll s mem).2).2
+    have b := ihm (l.freeAll tr s mem).1 (l.freeAll tr s mem).2 (by omega) (by omega)
+    have c' := ihr (m.freeAll tr (l.freeAll tr s mem).1 (l.freeAll tr s mem).2).1 (m.freeAll tr (l.freeAll tr s mem).1 (l.freeAll tr s mem).2).2
       (by omega) (by omega)
     simp only [Node.freeAll, Node.marked]
     cases d with
     | none =>
       simp at hown hs
-      have f := free_spec (r.freeAll (m.freeAll (l.freeAll s mem).1 (l.freeAll s mem).2).1 (m.freeAll (l.freeAll s mem).1 (l.freeAll s mem).2).2).2 (by omega)
+      have f := free_spec (r.freeAll tr (m.freeAll tr (l.freeAll tr s mem).1 (l.freeAll tr s mem).2).1 (m.freeAll tr (l.freeAll tr s mem).1 (l.freeAll tr s mem).2).2).2 tr (by omega)
       simp only []
-      refine ⟨by simp; omega, by rw [f.1]; omega, ?_, ?_⟩
-      · rw [f.2.1, c'.2.2.1, b.2.2.1, a.2.2.1]
-      · rw [f.2.2.1, c'.2.2.2, b.2.2.2, a.2.2.2]
+      refine ⟨by simp; omega, by rw [f.1]; omega, ?_⟩
+      rw [f.2, c'.2.2, b.2.2, a.2.2]
     | some e =>
       simp at hown hs
-      have f := free_spec (r.freeAll (m.freeAll (l.freeAll s mem).1 (l.freeAll s mem).2).1 (m.freeAll (l.freeAll s mem).1 (l.freeAll s mem).2).2).2 (by omega)
-      have f2 := free_spec _ (show 0 < (r.freeAll (m.freeAll (l.freeAll s mem).1 (l.freeAll s mem).2).1 (m.freeAll (l.freeAll s mem).1 (l.freeAll s mem).2).2).2.free.live by omega)
+      have f := free_spec (r.freeAll tr (m.freeAll tr (l.freeAll tr s mem).1 (l.freeAll tr s mem).2).1 (m.freeAll tr (l.freeAll tr s mem).1 (l.freeAll tr s mem).2).2).2 tr (by omega)
+      have f2 := free_spec ((r.freeAll tr (m.freeAll tr (l.freeAll tr s mem).1 (l.freeAll tr s mem).2).1 (m.freeAll tr (l.freeAll tr s mem).1 (l.freeAll tr s mem).2).2).2.freeT tr) tr (by omega)
       simp only []
-      refine ⟨?_, by rw [f2.1, f.1]; omega, ?_, ?_⟩
+      refine ⟨?_, by rw [f2.1, f.1]; omega, ?_⟩
       · simp only [decSize]; split <;> simp <;> omega
-      · rw [f2.2.1, f.2.1, c'.2.2.1, b.2.2.1, a.2.2.1]
-      · rw [f2.2.2.1, f.2.2.1, c'.2.2.2, b.2.2.2, a.2.2.2]
+      · rw [f2.2, f.2, c'.2.2, b.2.2, a.2.2]
 
 /-! ### the ideal map -/
 namespace SpecLemmas
@@ -1070,17 +1098,17 @@ theorem abs_size (t : Table) (hs : t.size = t.root.marked) : t.abs.size = t.size
 /-! ### table-level operations -/
 
 theorem ins_unrefused (key : Key) (v : Nat) (t : Node) (ks : Key) (mem : Mem) (h : mem.sched = []) :
-    (t.ins cmp key v ks mem).st = .ok := by
+    (t.ins tr cmp key v ks mem).st = .ok := by
   induction t generalizing ks with
   | nil =>
-    have a := allocChain_nil (chainLen ks) 0 mem h
-    have b := Mem.alloc_nil _ a.2
+    have a := allocChain_nil (tr := tr) (chainLen ks) 0 mem h
+    have b := allocT_nil _ tr a.2
     simp [Node.ins, a.1, b.1]
   | node c d l m r ihl ihm ihr =>
-    have hs : (setData key v c d l m r mem).st = .ok := by
+    have hs : (setData tr key v c d l m r mem).st = .ok := by
       cases d with
       | some e => simp [setData]
-      | none => simp [setData, (Mem.alloc_nil mem h).1]
+      | none => simp [setData, (allocT_nil mem tr h).1]
     cases ks with
     | nil => simpa [Node.ins] using hs
     | cons x xs =>
@@ -1097,24 +1125,37 @@ def Table.Good (cmp : Cmp) (t : Table) : Prop := t.Inv cmp ∧ t.root.KeysOk
 
 instance (cmp : Cmp) (t : Table) : Decidable (t.Good cmp) := by unfold Table.Good; infer_instance
 
-/-- the allocator ledger covers the table: header, nodes, entries -/
-def Table.Owns (t : Table) (mem : Mem) : Prop := t.root.owned + 1 ≤ mem.live
+/-- the allocator ledger covers the table: header, nodes, entries (in the counter of the table's triple) -/
+def Table.Owns (t : Table) (mem : Mem) : Prop := t.root.owned + 1 ≤ mem.liveT t.triple
+
+@[simp] theorem Table.add_triple (t : Table) (key : Key) (v : Nat) (mem : Mem) :
+    (t.add cmp key v mem).2.1.triple = t.triple := rfl
+
+theorem Table.remove_triple (t : Table) (key : Key) (mem : Mem) :
+    (t.remove cmp key mem).2.2.1.triple = t.triple := by
+  simp only [Table.remove]
+  split
+  · rfl
+  · split <;> rfl
+
+@[simp] theorem Table.removeAll_triple (t : Table) (mem : Mem) : (t.removeAll mem).1.triple = t.triple := rfl
 
 theorem Table.add_spec (hc : CmpLaw cmp) (t : Table) (key : Key) (v : Nat) (mem : Mem)
     (hk : key ≠ []) (hg : t.Good cmp) :
     ((t.add cmp key v mem).1 = .ok →
         (t.add cmp key v mem).2.1.Good cmp ∧
         (∀ k, (t.add cmp key v mem).2.1.abs.get k = (t.abs.add key v).get k) ∧
-        (t.add cmp key v mem).2.2.live + t.root.owned = mem.live + (t.add cmp key v mem).2.1.root.owned) ∧
+        (t.add cmp key v mem).2.2.liveT t.triple + t.root.owned =
+          mem.liveT t.triple + (t.add cmp key v mem).2.1.root.owned) ∧
     ((t.add cmp key v mem).1 ≠ .ok →
         (t.add cmp key v mem).1 = .errAlloc ∧ (t.add cmp key v mem).2.1 = t ∧
-        (t.add cmp key v mem).2.2.live = mem.live) ∧
-    (t.add cmp key v mem).2.2.fault = mem.fault ∧ (t.add cmp key v mem).2.2.libc = mem.libc := by
+        (t.add cmp key v mem).2.2.liveT t.triple = mem.liveT t.triple) ∧
+    (t.add cmp key v mem).2.2.fault = mem.fault := by
   obtain ⟨⟨hs, hp, ho⟩, hko⟩ := hg
-  have q := ins_spec (cmp := cmp) key v t.root key mem
+  have q := ins_spec (tr := t.triple) (cmp := cmp) key v t.root key mem
   unfold InsSpec at q
   simp only [Table.add]
-  refine ⟨fun h => ?_, fun h => ?_, q.2.2.1, q.2.2.2⟩
+  refine ⟨fun h => ?_, fun h => ?_, q.2.2⟩
   · obtain ⟨q1, q2, q3⟩ := q.1 h
     have ho' := ordered_insPure (cmp := cmp) (key, v) t.root key ho
     have hko' := keysOk_insPure hc key v t.root hk ho hko
@@ -1153,6 +1194,23 @@ theorem Table.containsKey_spec (hc : CmpLaw cmp) (t : Table) (key : Key) (hk : k
   simp only [Table.containsKey, Table.get_spec hc t key hk hg, Spec.StrMap.contains]
   cases t.abs.get key <;> simp
 
+/-- an absent key: `remove` returns at once, nothing is touched (no ledger hypothesis needed) -/
+theorem Table.remove_absent (hc : CmpLaw cmp) (t : Table) (key : Key) (mem : Mem)
+    (hk : key ≠ []) (hg : t.Good cmp) (hp : t.abs.get key = none) :
+    t.remove cmp key mem = (.errKeyNotFound, none, t, mem) := by
+  obtain ⟨⟨hs, hp', ho⟩, hko⟩ := hg
+  rw [abs_get hc t ho hko] at hp
+  simp only [hk, if_false] at hp
+  have hlf := lookup_eq_findPath (cmp := cmp) t.root key
+  simp only [Table.remove]
+  cases hf : t.root.findPath cmp key with
+  | none => rfl
+  | some p =>
+    simp only [hf, Option.bind_some] at hlf
+    cases hd : (t.root.sub p).data? with
+    | none => simp [hd]
+    | some e => rw [hd] at hlf; rw [hlf] at hp; simp at hp
+
 theorem Table.remove_spec (hc : CmpLaw cmp) (t : Table) (key : Key) (mem : Mem)
     (hk : key ≠ []) (hg : t.Good cmp) (hl : t.Owns mem) :
     match t.abs.get key with
@@ -1161,9 +1219,10 @@ theorem Table.remove_spec (hc : CmpLaw cmp) (t : Table) (key : Key) (mem : Mem)
       (t.remove cmp key mem).1 = .ok ∧ (t.remove cmp key mem).2.1 = some v ∧
       (t.remove cmp key mem).2.2.1.Good cmp ∧
       (∀ k, (t.remove cmp key mem).2.2.1.abs.get k = (t.abs.remove key).get k) ∧
-      (t.remove cmp key mem).2.2.2.live + t.root.owned = mem.live + (t.remove cmp key mem).2.2.1.root.owned ∧
+      (t.remove cmp key mem).2.2.2.liveT t.triple + t.root.owned =
+        mem.liveT t.triple + (t.remove cmp key mem).2.2.1.root.owned ∧
       (t.remove cmp key mem).2.2.1.root.owned < t.root.owned ∧
-      (t.remove cmp key mem).2.2.2.fault = mem.fault ∧ (t.remove cmp key mem).2.2.2.libc = mem.libc := by
+      (t.remove cmp key mem).2.2.2.fault = mem.fault := by
   obtain ⟨⟨hs, hp, ho⟩, hko⟩ := hg
   rw [abs_get hc t ho hko]
   simp only [hk, if_false]
@@ -1178,11 +1237,11 @@ theorem Table.remove_spec (hc : CmpLaw cmp) (t : Table) (key : Key) (mem : Mem)
     | some e =>
       rw [hd] at hlf
       simp only [hlf, Option.map_some, hd]
-      have q := remAt_spec t.root p mem e hd (by unfold Table.Owns at hl; omega)
-      obtain ⟨q1, q2, q3, q4, q5, q6⟩ := q
-      have ho' := ordered_remAt (cmp := cmp) t.root p mem ho
-      have hko' := keysOk_remAt hc t.root key p mem e hk hf hd ho hko
-      refine ⟨trivial, trivial, ⟨⟨?_, pruned_remAt _ _ _ hp, ho'⟩, hko'⟩, ?_, q3, ?_, q4, q5⟩
+      have q := remAt_spec t.triple t.root p mem e hd (by unfold Table.Owns at hl; omega)
+      obtain ⟨q1, q2, q3, q4, q6⟩ := q
+      have ho' := ordered_remAt (tr := t.triple) (cmp := cmp) t.root p mem ho
+      have hko' := keysOk_remAt (tr := t.triple) hc t.root key p mem e hk hf hd ho hko
+      refine ⟨trivial, trivial, ⟨⟨?_, pruned_remAt _ _ _ hp, ho'⟩, hko'⟩, ?_, q3, ?_, q4⟩
       · simp only; rw [hs]; split <;> omega
       · intro k
         rw [abs_get hc _ ho' hko', SpecLemmas.get_remove, abs_get hc t ho hko]
@@ -1194,59 +1253,62 @@ theorem Table.remove_spec (hc : CmpLaw cmp) (t : Table) (key : Key) (mem : Mem)
       · exact q6
 
 theorem Table.removeAll_spec (t : Table) (mem : Mem) (hs : t.size = t.root.marked) (hl : t.Owns mem) :
-    (t.removeAll mem).1 = { size := 0, root := .nil } ∧
-    (t.removeAll mem).2.live = mem.live - t.root.owned ∧
-    (t.removeAll mem).2.fault = mem.fault ∧ (t.removeAll mem).2.libc = mem.libc := by
-  have := freeAll_spec t.root t.size mem (by omega) (by unfold Table.Owns at hl; omega)
+    (t.removeAll mem).1 = { t with size := 0, root := .nil } ∧
+    (t.removeAll mem).2.liveT t.triple = mem.liveT t.triple - t.root.owned ∧
+    (t.removeAll mem).2.fault = mem.fault := by
+  have := freeAll_spec t.triple t.root t.size mem (by omega) (by unfold Table.Owns at hl; omega)
   simp only [Table.removeAll]
-  refine ⟨?_, this.2.1, this.2.2.1, this.2.2.2⟩
+  refine ⟨?_, this.2.1, this.2.2⟩
   rw [this.1, hs]; simp
 
-theorem Table.good_empty : (Table.mk 0 .nil).Good cmp := by
+theorem Table.good_empty (tr : Triple) : (Table.mk 0 .nil tr).Good cmp := by
   refine ⟨⟨rfl, trivial, trivial⟩, ?_⟩
   intro x hx; simp [Node.entries] at hx
 
-theorem Table.new_spec (mem : Mem) :
-    ((Table.new mem).1 = .ok → (Table.new mem).2.1 = some ⟨0, .nil⟩ ∧ (Table.new mem).2.2.live = mem.live + 1) ∧
-    ((Table.new mem).1 ≠ .ok → (Table.new mem).1 = .errAlloc ∧ (Table.new mem).2.1 = none ∧
-        (Table.new mem).2.2.live = mem.live) ∧
-    (Table.new mem).2.2.fault = mem.fault := by
+theorem Table.new_spec (tr : Triple) (mem : Mem) :
+    ((Table.new tr mem).1 = .ok → (Table.new tr mem).2.1 = some ⟨0, .nil, tr⟩ ∧
+        (Table.new tr mem).2.2.liveT tr = mem.liveT tr + 1) ∧
+    ((Table.new tr mem).1 ≠ .ok → (Table.new tr mem).1 = .errAlloc ∧ (Table.new tr mem).2.1 = none ∧
+        (Table.new tr mem).2.2.liveT tr = mem.liveT tr) ∧
+    (Table.new tr mem).2.2.fault = mem.fault := by
   unfold Table.new
-  rcases Bool.eq_false_or_eq_true mem.alloc.1 with ha | ha
-  · have a := Mem.alloc_fst_true mem ha; simp [ha, a]
-  · have a := Mem.alloc_fst_false mem ha; simp [ha, a]
+  rcases Bool.eq_false_or_eq_true (mem.allocT tr).1 with ha | ha
+  · have a := allocT_fst_true mem tr ha; simp [ha, a]
+  · have a := allocT_fst_false mem tr ha; simp [ha, a]
 
 theorem Table.destroy_spec (t : Table) (mem : Mem) (hs : t.size = t.root.marked) (hl : t.Owns mem) :
-    (t.destroy mem).live = mem.live - t.root.owned - 1 ∧ (t.destroy mem).fault = mem.fault := by
+    (t.destroy mem).liveT t.triple = mem.liveT t.triple - t.root.owned - 1 ∧ (t.destroy mem).fault = mem.fault := by
   have := Table.removeAll_spec t mem hs hl
   unfold Table.Owns at hl
-  have f := free_spec (t.removeAll mem).2 (by omega)
+  have f := free_spec (t.removeAll mem).2 t.triple (by omega)
   simp only [Table.destroy]
-  exact ⟨by rw [f.1, this.2.1], by rw [f.2.1, this.2.2.1]⟩
+  exact ⟨by rw [f.1, this.2.1], by rw [f.2, this.2.2]⟩
 
 /-! ### the structural invariant survives every call, the empty key included (X5 is a functional
 defect, not a memory-safety one) -/
 
 theorem Table.add_inv_any_key (t : Table) (key : Key) (v : Nat) (mem : Mem) (hi : t.Inv cmp) :
     (t.add cmp key v mem).2.1.Inv cmp ∧ (t.add cmp key v mem).2.2.fault = mem.fault ∧
-    (t.add cmp key v mem).2.2.live + t.root.owned = mem.live + (t.add cmp key v mem).2.1.root.owned := by
+    (t.add cmp key v mem).2.2.liveT t.triple + t.root.owned =
+      mem.liveT t.triple + (t.add cmp key v mem).2.1.root.owned := by
   obtain ⟨hs, hp, ho⟩ := hi
-  have q := ins_spec (cmp := cmp) key v t.root key mem
+  have q := ins_spec (tr := t.triple) (cmp := cmp) key v t.root key mem
   unfold InsSpec at q
   simp only [Table.add]
-  by_cases h : (t.root.ins cmp key v key mem).st = .ok
+  by_cases h : (t.root.ins t.triple cmp key v key mem).st = .ok
   · obtain ⟨q1, q2, q3⟩ := q.1 h
-    refine ⟨⟨?_, ?_, ?_⟩, q.2.2.1, q2⟩
+    refine ⟨⟨?_, ?_, ?_⟩, q.2.2, q2⟩
     · simp only; rw [q3, hs]; split <;> rfl
     · simp only; rw [q1]; exact pruned_insPure _ _ _ hp
     · simp only; rw [q1]; exact ordered_insPure _ _ _ ho
   · obtain ⟨q1, q2, q3, q4⟩ := q.2.1 h
-    refine ⟨?_, q.2.2.1, by rw [q2, q4]⟩
+    refine ⟨?_, q.2.2, by rw [q2, q4]⟩
     simp only [q2, q3]; exact ⟨hs, hp, ho⟩
 
 theorem Table.remove_inv_any_key (t : Table) (key : Key) (mem : Mem) (hi : t.Inv cmp) (hl : t.Owns mem) :
     (t.remove cmp key mem).2.2.1.Inv cmp ∧ (t.remove cmp key mem).2.2.2.fault = mem.fault ∧
-    (t.remove cmp key mem).2.2.2.live + t.root.owned = mem.live + (t.remove cmp key mem).2.2.1.root.owned := by
+    (t.remove cmp key mem).2.2.2.liveT t.triple + t.root.owned =
+      mem.liveT t.triple + (t.remove cmp key mem).2.2.1.root.owned := by
   obtain ⟨hs, hp, ho⟩ := hi
   simp only [Table.remove]
   cases hf : t.root.findPath cmp key with
@@ -1256,35 +1318,39 @@ theorem Table.remove_inv_any_key (t : Table) (key : Key) (mem : Mem) (hi : t.Inv
     cases hd : (t.root.sub p).data? with
     | none => exact ⟨⟨hs, hp, ho⟩, rfl, rfl⟩
     | some e =>
-      obtain ⟨q1, q2, q3, q4, q5, q6⟩ := remAt_spec t.root p mem e hd (by unfold Table.Owns at hl; omega)
+      obtain ⟨q1, q2, q3, q4, q6⟩ := remAt_spec t.triple t.root p mem e hd (by unfold Table.Owns at hl; omega)
       refine ⟨⟨?_, pruned_remAt _ _ _ hp, ordered_remAt _ _ _ ho⟩, q4, q3⟩
       simp only; rw [hs]; split <;> omega
 
 /-! ### refusals are never swallowed -/
 
-theorem alloc_refused (m : Mem) :
-    (m.alloc.1 = true → m.alloc.2.nrefused = m.nrefused) ∧
-    (m.alloc.1 = false → m.alloc.2.nrefused = m.nrefused + 1) := by
-  unfold Mem.alloc; split <;> simp
+theorem alloc_refused (m : Mem) (tr : Triple) :
+    ((m.allocT tr).1 = true → (m.allocT tr).2.nrefused = m.nrefused) ∧
+    ((m.allocT tr).1 = false → (m.allocT tr).2.nrefused = m.nrefused + 1) := by
+  cases tr
+  · simp only [Mem.allocT_conf]; unfold Mem.alloc; split <;> simp
+  · exact ⟨fun _ => rfl, fun h => by cases h⟩
 
-theorem free_refused (m : Mem) : m.free.nrefused = m.nrefused := by
-  unfold Mem.free; split <;> rfl
+theorem free_refused (m : Mem) (tr : Triple) : (m.freeT tr).nrefused = m.nrefused := by
+  cases tr
+  · simp only [Mem.freeT_conf]; unfold Mem.free; split <;> rfl
+  · simp only [Mem.freeT]; split <;> rfl
 
-theorem freeN_refused (n : Nat) (m : Mem) : (freeN n m).nrefused = m.nrefused := by
+theorem freeN_refused (n : Nat) (m : Mem) : (freeN tr n m).nrefused = m.nrefused := by
   induction n generalizing m with
   | zero => rfl
   | succ n ih => simp only [freeN]; rw [ih, free_refused]
 
 theorem allocChain_refused (todo made : Nat) (m : Mem) :
-    ((allocChain todo made m).1 = true → (allocChain todo made m).2.nrefused = m.nrefused) ∧
-    ((allocChain todo made m).1 = false → (allocChain todo made m).2.nrefused = m.nrefused + 1) := by
+    ((allocChain tr todo made m).1 = true → (allocChain tr todo made m).2.nrefused = m.nrefused) ∧
+    ((allocChain tr todo made m).1 = false → (allocChain tr todo made m).2.nrefused = m.nrefused + 1) := by
   induction todo generalizing made m with
   | zero => simp [allocChain]
   | succ n ih =>
     simp only [allocChain]
-    have a := alloc_refused m
-    rcases Bool.eq_false_or_eq_true m.alloc.1 with ha | ha
-    · have := ih (made + 1) m.alloc.2
+    have a := alloc_refused m tr
+    rcases Bool.eq_false_or_eq_true (m.allocT tr).1 with ha | ha
+    · have := ih (made + 1) (m.allocT tr).2
       simp only [ha, Bool.not_true, Bool.false_eq_true, if_false]
       rw [← a.1 ha]; exact this
     · simp only [ha, Bool.not_false, if_true]
@@ -1296,27 +1362,27 @@ def RefusedSpec (mem : Mem) (q : InsRes) : Prop :=
   (q.st = .ok → q.mem.nrefused = mem.nrefused) ∧ (q.st ≠ .ok → q.mem.nrefused = mem.nrefused + 1)
 
 theorem setData_refused (key : Key) (v c : Nat) (d : Option Entry) (l m r : Node) (mem : Mem) :
-    RefusedSpec mem (setData key v c d l m r mem) := by
+    RefusedSpec mem (setData tr key v c d l m r mem) := by
   unfold RefusedSpec
   cases d with
   | some e0 => simp [setData]
   | none =>
     simp only [setData]
-    have a := alloc_refused mem
-    rcases Bool.eq_false_or_eq_true mem.alloc.1 with ha | ha
+    have a := alloc_refused mem tr
+    rcases Bool.eq_false_or_eq_true (mem.allocT tr).1 with ha | ha
     · simp [ha, a.1 ha]
     · simp [ha, a.2 ha]
 
 theorem ins_refused (key : Key) (v : Nat) (t : Node) (ks : Key) (mem : Mem) :
-    RefusedSpec mem (t.ins cmp key v ks mem) := by
+    RefusedSpec mem (t.ins tr cmp key v ks mem) := by
   induction t generalizing ks with
   | nil =>
     unfold RefusedSpec
     simp only [Node.ins]
-    have a := allocChain_refused (chainLen ks) 0 mem
-    rcases Bool.eq_false_or_eq_true (allocChain (chainLen ks) 0 mem).1 with ha | ha
-    · have b := alloc_refused (allocChain (chainLen ks) 0 mem).2
-      rcases Bool.eq_false_or_eq_true (allocChain (chainLen ks) 0 mem).2.alloc.1 with hb | hb
+    have a := allocChain_refused (tr := tr) (chainLen ks) 0 mem
+    rcases Bool.eq_false_or_eq_true (allocChain tr (chainLen ks) 0 mem).1 with ha | ha
+    · have b := alloc_refused (allocChain tr (chainLen ks) 0 mem).2 tr
+      rcases Bool.eq_false_or_eq_true ((allocChain tr (chainLen ks) 0 mem).2.allocT tr).1 with hb | hb
       · simp [ha, hb, b.1 hb, a.1 ha]
       · simp [ha, hb, freeN_refused, b.2 hb, a.1 ha]
     · simp [ha, a.2 ha]
@@ -1336,4 +1402,42 @@ theorem Table.add_refused (t : Table) (key : Key) (v : Nat) (mem : Mem) :
     ((t.add cmp key v mem).1 = .ok → (t.add cmp key v mem).2.2.nrefused = mem.nrefused) ∧
     ((t.add cmp key v mem).1 ≠ .ok → (t.add cmp key v mem).2.2.nrefused = mem.nrefused + 1) :=
   ins_refused key v t.root key mem
+
+/-- a table built on the C library's allocator is never refused -/
+theorem Table.add_libc_ok (t : Table) (key : Key) (v : Nat) (mem : Mem) (h : t.triple = .libc) :
+    (t.add cmp key v mem).1 = .ok := by
+  have q := Table.add_refused (cmp := cmp) t key v mem
+  by_cases hok : (t.add cmp key v mem).1 = .ok
+  · exact hok
+  · exfalso
+    have h2 := q.2 hok
+    -- no allocation through the C library changes `nrefused`
+    have : ∀ (tn : Node) (ks : Key) (m : Mem), (tn.ins .libc cmp key v ks m).st = .ok := by
+      intro tn
+      induction tn with
+      | nil =>
+        intro ks m
+        have hc : ∀ todo made m', (allocChain .libc todo made m').1 = true := by
+          intro todo
+          induction todo with
+          | zero => intro _ _; rfl
+          | succ n ih => intro made m'; simp only [allocChain, Mem.allocT]; exact ih _ _
+        simp [Node.ins, hc, Mem.allocT]
+      | node c d l m' r ihl ihm ihr =>
+        intro ks m
+        have hs : (setData .libc key v c d l m' r m).st = .ok := by cases d <;> simp [setData, Mem.allocT]
+        cases ks with
+        | nil => simpa [Node.ins] using hs
+        | cons x xs =>
+          simp only [Node.ins]
+          cases cmp x c <;> simp only []
+          · exact ihl _ _
+          · cases xs with
+            | nil => exact hs
+            | cons y ys => exact ihm _ _
+          · exact ihr _ _
+    apply hok
+    simp only [Table.add, h]
+    exact this _ _ _
+
 end CC.TST
